@@ -161,10 +161,10 @@ impl Recipe {
 fn gen_body(rng: &mut Rng, max: usize) -> Vec<u8> {
     let n = match rng.weighted(&[15, 40, 25, 15, 5]) {
         0 => 0,
-        1 => rng.range(1, 40),
-        2 => rng.range(41, 600),
-        3 => rng.range(601, 8192.min(max)),
-        _ => rng.range(1, max),
+        1 => rng.range(1, 40.min(max.max(1))),
+        2 => rng.range(41.min(max.max(1)), 600.min(max.max(1))),
+        3 => rng.range(601.min(max.max(1)), 8192.min(max.max(1))),
+        _ => rng.range(1, max.max(1)),
     };
     match rng.below(5) {
         0 => rng.bytes(n),
@@ -351,6 +351,12 @@ impl Prop for C06 {
         let burst = rng.chance(1, 3);
         // a third of the runs also read between writes (a duplex owner)
         let duplex = rng.chance(1, 3);
+        if rng.chance(1, 40) {
+            // a healthy burst: dozens of small responses queued before the first write
+            for _ in 0..rng.range(20, 70) {
+                steps.push(WStep::Enq(gen_recipe(rng, 2, 24)));
+            }
+        }
         for i in 0..nsteps {
             let want_enq = if burst && i < 4 { true } else { rng.chance(1, 3) };
             if duplex && rng.chance(1, 5) {
